@@ -612,6 +612,7 @@ def dodecaForward (theta phi : Float) (originId : Nat) : Outcome V2 :=
     .ok (polyhedralForward unprojected st ft)
 
 def dodecaInverse (f : V2) (originId : Nat) : Outcome (Float × Float) :=
+  if originId ≥ origins.length then .err .invalidOrigin else
   let (rho, gamma) := toPolar f
   let idx := faceTriangleIndex gamma
   let reflect := shouldReflect rho gamma
